@@ -971,6 +971,7 @@ def install_scipy_main(reg, src):
         nvars = sym.fn("LEN_any", sym.Ref, sym.I)(vb0)
         x0 = c.arg("x0", T.const(None) if case["x0"] == "none" else T.custom(lambda ip_, h: SArr(sym.fresh("x0_given", sym.RealArr), n=nvars)))
         tol = c.arg("tol", T.opt(T.real("float")))
+        c.assume(z3.Implies(z3.Not(tol.isnone), real_term(tol.val) >= 0))       # a tolerance is a non-negative number
         maxiter = c.arg("maxiter", T.opt(T.int_()))
         use_h = c.arg("use_hessian", T.const(True))
         strict = c.arg("strict", T.const(case["strict"]))
@@ -1049,6 +1050,31 @@ def install_scipy_main(reg, src):
             mv = st_.var("max_violation")
             return [cvt == ex(st_.i), real_term(mv) >= 0]
         c.loop(1, inv1, havoc={"c_val": T.real("float"), "scaled_tol": T.real("float"), "violation": T.real("float")})
+
+        # loop 2 (present after the D14 repair): declared bounds are checked at the returned point, with the same tolerance
+        def bound_violated(k, X):
+            ctx = ip.path.ghost["scipy_ctx"]
+            V_ = ip.schema.seq_of_base(ip, ctx["vbase"], "Variable")
+            v_ = V_.get(k)
+            lb_, ub_ = ip.getattr(v_, "lb"), ip.getattr(v_, "ub")
+            xk = z3.Select(X.arr, k)
+            atol_ = z3.If(tol.isnone, sym.rv(1e-6), real_term(tol.val))
+            bt = atol_ + sym.rv(1e-6) * sym.zmax(sym.rv(1.0), sym.zabs(xk))
+            return z3.Or(z3.And(z3.Not(lb_.isnone), xk < real_term(lb_.val) - bt), z3.And(z3.Not(ub_.isnone), xk > real_term(ub_.val) + bt))
+
+        def inv2(st_):
+            mc = ip.path.ghost.get("min_call")
+            if mc is None:
+                return []
+            cv = st_.var("constraints_violated")
+            cvt = cv.t if isinstance(cv, SBool) else z3.BoolVal(bool(cv))
+            n_ = ip.path.ghost["scipy_ctx"]["n"]
+            conv = named_exists(ip, "VIOLBEFORE", [s0.cons, mc["X"].arr], s0.ncon, lambda k: violated(k, mc["X"]))
+            bex = named_exists(ip, "BOUNDVIOLBEFORE", [ip.path.ghost["scipy_ctx"]["vbase"], mc["X"].arr], n_, lambda k: bound_violated(k, mc["X"]))
+            mv = st_.var("max_violation")
+            # the loop runs only for a converged result: the constraint loop has run (or there is no constraint at all)
+            return [cvt == z3.Or(conv(s0.ncon), bex(st_.i)), real_term(mv) >= 0]
+        c.loop(2, inv2, havoc={"x_i": T.real("float"), "bound_tol": T.real("float")})
 
         def events(tag):
             return [pl for t, pl in ip.path.events if t == tag]
@@ -1189,9 +1215,11 @@ def install_scipy_main(reg, src):
             ip.reg.saturate(ip)
             path.oblige(oid("OPTIMAL => no constraint violated beyond the stated tolerance"),
                         z3.Implies(z3.And(is_("optimal"), skc >= 0, skc < s0.ncon), z3.Not(violated(skc, X))), kind="post", props=["C06"])
-            BOK = sym.fn("WITHIN_BOUNDS", sym.RealArr, sym.Ref, sym.B)
+            skb = skolem(ip, "sk_bnd", ctx["n"])
+            ip.reg.index_used(ip, skb)
+            ip.reg.saturate(ip)
             path.oblige(oid("OPTIMAL => every variable bound respected"),
-                        z3.Implies(is_("optimal"), BOK(X.arr, ctx["vbase"])), kind="post", props=["C06"])
+                        z3.Implies(z3.And(is_("optimal"), skb >= 0, skb < ctx["n"]), z3.Not(bound_violated(skb, X))), kind="post", props=["C06"])
             # ---------------- C07
             ov = sol.fields.get("objective_value")
             obj = Opaque(s0.obj, "Expression")
